@@ -1020,7 +1020,7 @@ def r_cid_format(model, rep):
     for layered in (False, True):
         for hack in (False, True):
             # the documented RHEL-5 hack: every condition other than is_layered guards only that extra part
-            vals = facts.value_under(cx, facts.atoms_decider({layered_t: layered}, default=hack))
+            vals = facts.value_under(cx, facts.atoms_decider({layered_t: layered}, default=hack), past_refusals=True)
             if len(vals) != 1 or vals[0][0] != "fmt":
                 raise AnalysisError("create_compose_id: cannot evaluate the result for layered=%s hack=%s: %s" % (
                     layered, hack, [T.show(x)[:100] for x in vals]))
